@@ -136,7 +136,8 @@ def run_case(case):
     mon = Mon(trace_len=30)
     lives, models = [], []
     for k, d in enumerate(case["maps"]):
-        lives.append(MemoryMap(addr_width=d["aw"], data_width=d["dw"], alignment=d["al"]))
+        lives.append(MemoryMap(addr_width=spell_int(rng, d["aw"]), data_width=spell_int(rng, d["dw"]),
+                               alignment=spell_int(rng, d["al"])))
         models.append(MapModel(d["aw"], d["dw"], d["al"], label=f"M{k}"))
     by_id = {id(m): k for k, m in enumerate(lives)}
     st = {"fresh": 0, "refused_on": set(), "nontrivial": False, "objs": [], "refused_names": []}
@@ -356,7 +357,7 @@ def run_case(case):
             mon.log(why)
             pred = mm.predict_align_to(al)
             try:
-                out, raised = m.align_to(al), None
+                out, raised = m.align_to(spell_int(rng, al)), None
             except Exception as e:
                 out, raised = None, e
             if raised is not None:
